@@ -266,7 +266,16 @@ func runOne09(i int, cfg *Config, seed int64) (obs Obs09) {
 		for k := 0; k < n; k++ {
 			tag := fmt.Sprintf("%s|%s|%d", r.id, r.sig, k)
 			obs.Injected = append(obs.Injected, tag)
-			if err := feed(ctx, r.next, newPayload(r.sig, tag, "")); err != nil {
+			// every other injection carries a context that has already ended (the caller gave up after handing the data over):
+			// where the data goes is decided by the configuration, not by the context (seeded change C09-9 stopped the
+			// fan-out when the context was done)
+			ictx := ctx
+			if k%2 == 1 {
+				cctx, cancel := context.WithCancel(ctx)
+				cancel()
+				ictx = cctx
+			}
+			if err := feed(ictx, r.next, newPayload(r.sig, tag, "")); err != nil {
 				obs.FeedErrs = append(obs.FeedErrs, tag+": "+err.Error())
 			}
 		}
